@@ -434,3 +434,12 @@ def m6(ctx):
                       "read_href_element parses the href with urlparse: its .path drops everything after a ';' in the last segment, so a member whose "
                       "name contains ';' is looked up under a truncated name (404 for an href nobody asked for)"))
     return obs
+
+
+@rule("C17", "M7", floor=40, kind="S",
+      desc="an href inside a multiget body and the same URL as Request-URI name the same resource: request paths, "
+           "multiget hrefs and member names are used as sent (same obligations as C16/N1 - no Unicode normalisation "
+           "or case mapping on one of the two ways in)")
+def m7(ctx):
+    from .c16 import opaque_name_obligations
+    return opaque_name_obligations(ctx)
